@@ -6,3 +6,8 @@ pub mod types;
 
 #[cfg(feature = "server")]
 pub use brc20_prog_database::Brc20ProgDatabase;
+
+#[cfg(all(brc20_verif, feature = "server"))]
+pub use cached_database::{BlockCachedDatabase, BlockHistoryCache, BlockHistoryCacheData};
+#[cfg(all(brc20_verif, feature = "server"))]
+pub use database::BlockDatabase;
